@@ -62,7 +62,7 @@ impl<K: KeyT, V: ValT> MapWorld<K, V> {
             1 => drive(
                 m.iter_mut().map(|(k, v)| {
                     let r = kv_item(k, v);
-                    v.set(v.val() ^ TOGGLE);
+                    v.set(v.val() ^ Self::TG);
                     tch.borrow_mut().push(r);
                     r
                 }),
@@ -75,7 +75,7 @@ impl<K: KeyT, V: ValT> MapWorld<K, V> {
             4 => drive(
                 m.values_mut().map(|v| {
                     let r = v_item(v);
-                    v.set(v.val() ^ TOGGLE);
+                    v.set(v.val() ^ Self::TG);
                     tch.borrow_mut().push(r);
                     r
                 }),
@@ -87,7 +87,7 @@ impl<K: KeyT, V: ValT> MapWorld<K, V> {
             6 => drive(
                 (&mut *m).into_iter().map(|(k, v)| {
                     let r = kv_item(k, v);
-                    v.set(v.val() ^ TOGGLE);
+                    v.set(v.val() ^ Self::TG);
                     tch.borrow_mut().push(r);
                     r
                 }),
@@ -140,7 +140,7 @@ impl<K: KeyT, V: ValT> MapWorld<K, V> {
                 });
                 if let Some(p) = pos {
                     done[p] = true;
-                    model.e[p].v ^= TOGGLE;
+                    model.e[p].v ^= Self::TG;
                 }
             }
         }
@@ -249,27 +249,43 @@ impl<K: KeyT, V: ValT> MapWorld<K, V> {
         }
         let yielded = log.head.len() + log.tail.len() + if plan.finish == 5 { log.counted.unwrap_or(0) } else { 0 };
         if plan.finish == 4 {
-            // forgotten: the unyielded remainder and the block are leaked, exactly
-            let visited: Vec<Item> = log.head.iter().chain(log.tail.iter()).copied().collect();
-            let mut leaked = 0;
-            for e in &model.e {
-                let was_yielded = visited.iter().any(|it| match which {
-                    2 => it.3 == e.vs && it.2 == e.v,
-                    _ => it.0 == e.kid,
-                });
-                if !was_yielded {
-                    leaked += 1;
-                    if K::HAS_SERIAL {
-                        self.ctx.leaked_serials.insert(e.ks);
-                    } else if K::HAS_DROP {
-                        self.ctx.leaked_ms += 1;
+            // forgotten: the unyielded remainder and the block are leaked, exactly. Which entries were yielded is
+            // not always identifiable from the items (values without a serial), so the leaked entries are those
+            // still live afterwards; their number must be total - yielded and each must be live as a whole.
+            let n_yielded = log.head.len() + log.tail.len();
+            let expect_leaked = model.e.len().saturating_sub(n_yielded);
+            let mut leaked = 0usize;
+            {
+                let s = sim();
+                for e in &model.e {
+                    let kl = K::HAS_SERIAL && s.serial_state[e.ks as usize] == 1;
+                    let vl = V::HAS_SERIAL && s.serial_state[e.vs as usize] == 1;
+                    if kl || vl {
+                        leaked += 1;
+                        if (K::HAS_SERIAL && !kl) || (V::HAS_SERIAL && !vl) {
+                            drop(s);
+                            vio!(self, "ledger/leak", "a forgotten owning iterator {which} dropped only half of entry ({}, {})", e.kid, e.v);
+                        }
                     }
-                    if V::HAS_SERIAL {
+                }
+            }
+            if (K::HAS_SERIAL || V::HAS_SERIAL) && leaked != expect_leaked {
+                vio!(self, if leaked > expect_leaked { "ledger/leak" } else { "ledger/double-drop" }, "after forgetting owning iterator {which} that had yielded {n_yielded} of {} entries, {leaked} entries are still live (expected {expect_leaked})", model.e.len());
+            }
+            {
+                let s = sim();
+                for e in &model.e {
+                    if K::HAS_SERIAL && s.serial_state[e.ks as usize] == 1 {
+                        self.ctx.leaked_serials.insert(e.ks);
+                    }
+                    if V::HAS_SERIAL && s.serial_state[e.vs as usize] == 1 {
                         self.ctx.leaked_serials.insert(e.vs);
                     }
                 }
             }
-            let _ = leaked;
+            if !K::HAS_SERIAL && K::HAS_DROP {
+                self.ctx.leaked_ms += expect_leaked as i64;
+            }
             if size0 > 0 {
                 self.ctx.leaked_bytes += size0;
                 self.ctx.leaked_blocks += 1;
@@ -341,7 +357,7 @@ impl<K: KeyT, V: ValT> MapWorld<K, V> {
                 }
                 (St::E, 6) => {
                     if let Some(i) = occ {
-                        model.e[i].v ^= TOGGLE;
+                        model.e[i].v ^= Self::TG;
                     }
                 }
                 (St::E, 7) => {
@@ -374,12 +390,12 @@ impl<K: KeyT, V: ValT> MapWorld<K, V> {
                 (St::O, 12) => {
                     let i = occ.unwrap();
                     log.push(Ev::Val(model.e[i].v, model.e[i].vs));
-                    model.e[i].v ^= TOGGLE;
+                    model.e[i].v ^= Self::TG;
                 }
                 (St::O, 13) => {
                     let i = occ.unwrap();
                     log.push(Ev::Val(model.e[i].v, model.e[i].vs));
-                    model.e[i].v ^= TOGGLE;
+                    model.e[i].v ^= Self::TG;
                     st = St::Done;
                 }
                 (St::O, 14) => {
@@ -521,7 +537,7 @@ impl<K: KeyT, V: ValT> MapWorld<K, V> {
                     }
                     (St::E(e), 6) => St::E(e.and_modify(|v| {
                         tick(Class::Pred);
-                        v.set(v.val() ^ TOGGLE)
+                        v.set(v.val() ^ Self::TG)
                     })),
                     (St::E(e), 7) => {
                         let occupied = matches!(e, Entry::Occupied(_));
@@ -567,13 +583,13 @@ impl<K: KeyT, V: ValT> MapWorld<K, V> {
                     (St::O(mut o), 12) => {
                         let r = o.get_mut();
                         log.push(Ev::Val(r.val(), r.serial()));
-                        r.set(r.val() ^ TOGGLE);
+                        r.set(r.val() ^ Self::TG);
                         St::O(o)
                     }
                     (St::O(o), 13) => {
                         let r = o.into_mut();
                         log.push(Ev::Val(r.val(), r.serial()));
-                        r.set(r.val() ^ TOGGLE);
+                        r.set(r.val() ^ Self::TG);
                         St::Done
                     }
                     (St::O(mut o), 14) => {
@@ -694,7 +710,7 @@ impl<K: KeyT, V: ValT> MapWorld<K, V> {
         let ids: Vec<u32> = op.v.iter().take(4).map(|&x| x as u32 % K::UNIVERSE).collect();
         let n = ids.len();
         let kv = op.k == Kd::GetManyKv;
-        let base = (op.b as u32) & !TOGGLE;
+        let base = Self::nv((op.b as u32) & !TOGGLE);
         let fc = self.fctx(si, op);
         let views: Vec<K::View> = ids.iter().map(|&i| K::view(i)).collect();
         let m = self.slots[si].map.as_mut().unwrap();
@@ -710,7 +726,7 @@ impl<K: KeyT, V: ValT> MapWorld<K, V> {
                         .map(|(i, o)| {
                             o.map(|(k, v)| {
                                 let x = (k.serial(), v.serial(), v.val(), v as *mut V as usize);
-                                v.set(base + i as u32);
+                                v.set(Self::nv(base + i as u32));
                                 x
                             })
                         })
@@ -722,7 +738,7 @@ impl<K: KeyT, V: ValT> MapWorld<K, V> {
                         .map(|(i, o)| {
                             o.map(|v| {
                                 let x = (0, v.serial(), v.val(), v as *mut V as usize);
-                                v.set(base + i as u32);
+                                v.set(Self::nv(base + i as u32));
                                 x
                             })
                         })
@@ -795,7 +811,7 @@ impl<K: KeyT, V: ValT> MapWorld<K, V> {
                         vio!(self, "getmany/wrong-entry", "request {i} (key {}) returned value serial {vs} (value {oldv}), model has {:?}", ids[i], w);
                     }
                     let p = self.slots[si].model.pos(ids[i]).unwrap();
-                    self.slots[si].model.e[p].v = base + i as u32;
+                    self.slots[si].model.e[p].v = Self::nv(base + i as u32);
                 }
                 (w, r) => vio!(self, "getmany/presence", "request {i} (key {}) returned {:?}, model has {:?}", ids[i], r.map(|x| x.1), w),
             }
